@@ -10,7 +10,7 @@ import os
 import tempfile
 
 from ..common import Check
-from ..ctxtree import Top, TreeDesign, gen_tree, interp, leaf_conds
+from ..ctxtree import Top, TreeDesign, Watchdog, gen_tree, interp, leaf_conds
 from ..lockstep import Case, lockstep
 
 META = {
@@ -24,7 +24,9 @@ META = {
     "c33_same_decoded, c33_dispatch_sorted_stable are proved for every schema and every trigger/field history; the "
     "models are tied to the code by comparing, per cycle and per whole log, the records of the real capture process, "
     "of GeneratedEvLogSampler (packed / per-site) fed with the recorded signals of the real VerilogDebugWrapper, the "
-    "saved file text, load, EventLogReader, EventLogWriter, the decoded events and the dispatch sequence",
+    "saved file text, load, EventLogReader, EventLogWriter, the decoded events and the dispatch sequence; a second "
+    "stream calls the real GeneratedEvLogSampler.sample directly on arbitrary reader values (also where the packed "
+    "vector disagrees with the triggers: model/implementation agreement only)",
     "level_note": "trusted: Lean kernel (axioms propext, Classical.choice, Quot.sound); Python's json and dataclasses_json "
     "are ABSTRACTED: c33_save_load/c33_same_decoded assume a faithful codec (json.loads(json.dumps(v)) == v for ints and "
     "lists, schema header round-trips, an encoded record is not blank and contains no newline) - the correspondence "
@@ -112,7 +114,6 @@ def gen_spec(rng, small: bool = False) -> dict:
             whens.append(1 if r < 0.7 else rng.randint(2, 3))
             when = len(whens) - 1
         sites.append({"ev": evk, "top": rng.random() < 0.2, "when": when, "fields": fields, "statics": statics, "src": rng.randrange(2)})
-    # only signals that are used stay
     layers = []
     for li in range(rng.randint(0, 2)):
         layers.append([[rng.randrange(nev), f"on_{li}_{i}"] for i in range(rng.randint(0, 3))])
@@ -367,7 +368,8 @@ class _Built:
                 self.first = False
             else:
                 self.sim.reset()
-            self.sim.run()
+            with Watchdog(20):
+                self.sim.run()
         return self.recorded
 
 
@@ -801,6 +803,109 @@ def nontrivial(case: Case, out: list[str]) -> bool:
     return multi and ctxblocked and " disp=-" not in out[-1] and "disp=!" not in out[-1]
 
 
+# ----------------------------------------------------------------------------- sampler alone (any reader values)
+def impl_smp(case: Case) -> list[str]:
+    """direct calls of the real GeneratedEvLogSampler.sample on arbitrary reader values"""
+    from transactron.evlog import (
+        EventFieldSchema,
+        EventLog,
+        EventSiteLocation,
+        EventSiteSchema,
+        EvLogSchema,
+        GeneratedEvLog,
+        GeneratedEvLogSampler,
+    )
+
+    out = ["ok"]
+    for op in case.ops:
+        t = dict(x.split("=", 1) for x in op.split()[1:])
+        sites = [] if t["s"] == "-" else [x.split(":") for x in t["s"].split(";")]
+        vals: dict[str, int] = {}
+        locs = []
+        ss = []
+        for i, (tr, vs) in enumerate(sites):
+            fv = _ints(vs)
+            vals[f"t{i}"] = int(tr)
+            for j, v in enumerate(fv):
+                vals[f"f{i}_{j}"] = v
+            locs.append(EventSiteLocation(trigger=[f"t{i}"], fields=[[f"f{i}_{j}"] for j in range(len(fv))]))
+            ss.append(EventSiteSchema("src", "txv.none", ("gen", i), [EventFieldSchema(f"f{j}", 8) for j in range(len(fv))], {}))
+        schema = EvLogSchema(sites=ss)
+
+        def resolve(h):
+            return lambda: vals[h[0]]
+
+        res = []
+        for packed in ([t["p"]] if t["p"] != "-" else []) + [None]:
+            if packed is not None:
+                vals["packed"] = int(packed)
+            gen = GeneratedEvLog(schema=schema, site_locations=locs, triggers_location=["packed"] if packed is not None else None)
+            sink = EventLog(schema)
+            try:
+                GeneratedEvLogSampler(gen, resolve).sample(int(t["c"]), sink)
+                if any(c != int(t["c"]) for c, _, _ in sink.raw):
+                    res.append("cycle-mismatch")
+                else:
+                    res.append(show_evs([(s_, v) for _, s_, v in sink.raw]))
+            except Exception as e:  # noqa: BLE001
+                res.append("raise-" + type(e).__name__)
+        if t["p"] == "-":
+            res = ["x", *res]
+        out.append(f"pk={res[0]} ps={res[1]}")
+    return out
+
+
+def monitor_smp(case: Case, out: list[str]):
+    """per-site sampling reports exactly the sites whose trigger reads non-zero, with the values read; with a packed
+    vector whose bit i is trigger i the same records are reported"""
+    for k, (op, o) in enumerate(zip(case.ops, out[1:])):
+        t = dict(x.split("=", 1) for x in op.split()[1:])
+        sites = [] if t["s"] == "-" else [x.split(":") for x in t["s"].split(";")]
+        exp = [(i, _ints(vs)) for i, (tr, vs) in enumerate(sites) if int(tr) != 0]
+        f = dict(x.split("=", 1) for x in o.split())
+        if "raise" in o or "mismatch" in o:
+            return f"sample call {k}: {o}"
+        if parse_evs(f["ps"]) != exp:
+            return f"sample call {k}: per-site sampling reports {f['ps']}, sites with non-zero trigger are {exp}"
+        if t["p"] != "-":
+            p = int(t["p"])
+            if all(((p >> i) & 1) == int(int(tr) != 0) for i, (tr, _) in enumerate(sites)) and f["pk"] != f["ps"]:
+                return f"sample call {k}: packed vector {p:#b} agrees with the triggers but packed sampling reports {f['pk']}, per-site {f['ps']}"
+    return None
+
+
+def gen_smp_cases(ctx: Check) -> list[Case]:
+    rng = ctx.rng("smp")
+    cases = []
+    for _ in range(ctx.pick(40, 2000)):
+        ops = []
+        for _ in range(12):
+            n = rng.choice([0, 1, 2, 3, 5, 9, 17, 33, 65])
+            trigs = [rng.choice([0, 0, 1, 1, 2, 255]) for _ in range(n)]
+            sites = [f"{tr}:{','.join(str(rng.randint(-5, 300)) for _ in range(rng.randint(0, 3)))}" for tr in trigs]
+            good = sum((1 << i) for i, tr in enumerate(trigs) if tr)
+            mode = rng.random()
+            if mode < 0.15:
+                p = "-"
+            elif mode < 0.6:
+                p = str(good | (rng.getrandbits(3) << n if rng.random() < 0.5 else 0))  # garbage above the site bits
+            else:
+                p = str(rng.getrandbits(n + 1))  # bit i need not be trigger i
+            ops.append(f"smp c={rng.randint(0, 10**6)} p={p} s={';'.join(sites) or '-'}")
+        cases.append(Case("cfg n=0 h=- perm=id", ops, {"component": "sampler"}, "random"))
+    return cases
+
+
+def load_corpus() -> list[Case]:
+    from ..common import CORPUS
+
+    out = []
+    for f in sorted((CORPUS / "C33").glob("*.json")):
+        b = json.loads(f.read_text())
+        out.append(Case(b["cfg"], b["ops"], b["desc"], "corpus"))
+    return out
+
+
 def run(ctx: Check):
     ctx.rule = (
         "cases = (generated design: 1-6 emission sites with random event types (int/bool/enum/other dynamic fields, "
@@ -815,14 +920,25 @@ def run(ctx: Check):
         "generated log by the correspondence, not proved"
     )
     ctx.proof_stage()
-    cases = gen_cases(ctx)
+    corpus = load_corpus()
+    cases = [c for c in corpus if c.desc.get("component") == "evlog"] + gen_cases(ctx)
     for c in cases:
         ctx.count("sites_total", c.desc["nsites"])
         ctx.count(f"ctx_depth_{min(c.desc['max_ctx_depth'], 4)}")
     lockstep(ctx, "evlog", "C33", cases, impl, monitor, more_cases, nontrivial, procs=1 if ctx.quick else None)
+    # the sampler alone, on arbitrary reader values (also where the packed vector disagrees with the triggers:
+    # there only model and implementation are compared, the property makes no claim)
+    scases = [c for c in corpus if c.desc.get("component") == "sampler"] + gen_smp_cases(ctx)
+    lockstep(
+        ctx, "sampler", "C33", scases, impl_smp, monitor_smp, None,
+        lambda c, o: any(o_.split()[1].count(":") >= 2 for o_ in o[1:] if o_.startswith("pk=")),
+        procs=1,
+    )
 
 
 def replay(ctx: Check, body: dict):
     from ..lockstep import replay_case
 
+    if body.get("desc", {}).get("component") == "sampler":
+        return replay_case(body, impl_smp, monitor_smp)
     return replay_case(body, impl, monitor)
